@@ -39,18 +39,24 @@ theorem pad_roundtrip (f : Bytes) (hl : f.length ≤ 254) (hz : f.all (· == 0) 
 theorem extOf_block (hd : Header) (b : ExtBlock) (hc : b.canonical = true) (hwf : b.WF = true) :
     extOf { hd with extension := true, extProfile := b.profile, exts := b.elements } = some b := by
   cases b with
-  | oneByte items =>
-    simp only [ExtBlock.canonical, Bool.and_eq_true, Bool.not_eq_true'] at hc
-    simp [extOf, ExtBlock.profile, ExtBlock.elements, profileOneByte,
-      elems1_noReserved _ hc.2, toItems_elems _ hc.1]
-  | twoByte items =>
-    simp only [ExtBlock.canonical] at hc
-    have : ((0x1000 : UInt16) == profileOneByte) = false := by decide
-    simp [extOf, ExtBlock.profile, ExtBlock.elements, this, profileTwoByte, toItems_elems _ hc]
+  | oneByte items stop =>
+    simp only [ExtBlock.canonical, Bool.and_eq_true, Option.isNone_iff_eq_none] at hc
+    obtain ⟨h1, h2⟩ := hc
+    subst h2
+    simp [extOf, ExtBlock.profile, ExtBlock.elements, profileOneByte, toItems_elems _ h1]
+  | twoByte a items =>
+    simp only [ExtBlock.canonical, Bool.and_eq_true, beq_iff_eq] at hc
+    obtain ⟨h1, h2⟩ := hc
+    subst h1
+    have e1 : ((0x1000 + (0 : UInt8).toNat).toUInt16 == profileOneByte) = false := by decide
+    have e2 : ((0x1000 + (0 : UInt8).toNat).toUInt16 == profileTwoByte) = true := by decide
+    simp only [extOf, ExtBlock.profile, ExtBlock.elements, e1, e2, ↓reduceIte, Bool.false_eq_true, toItems_elems _ h2]
   | legacy p ws =>
     simp only [ExtBlock.WF, Bool.and_eq_true, bne_iff_ne, ne_eq] at hwf
     have e1 : (p == profileOneByte) = false := by simpa [profileOneByte] using hwf.1.1.1
-    have e2 : (p == profileTwoByte) = false := by simpa [profileTwoByte] using hwf.1.1.2
+    have e2 : (p == profileTwoByte) = false := by
+      have := legacy_profile p (by simpa using hwf.1.1.2)
+      simpa [profileTwoByte] using this
     simp [extOf, ExtBlock.profile, ExtBlock.elements, e1, e2]
 
 /-- a canonical description is recovered from the packet it describes -/
